@@ -860,6 +860,19 @@ impl<'a> Message<'a> {
                     &calculated_hash[0..2],
                     "signature: invalid signed hash value"
                 );
+
+                // Version 6 signatures and version 6 keys are strongly linked, as for every
+                // other way of verifying a signature:
+                // - only a v6 key may produce a v6 signature
+                // - a v6 key may only produce v6 signatures
+                ensure!(
+                    (key.version() == crate::types::KeyVersion::V6)
+                        == (config.version() == crate::packet::SignatureVersion::V6),
+                    "signature version {:?} not allowed for signer key version {:?}",
+                    config.version(),
+                    key.version()
+                );
+
                 key.verify(config.hash_alg, calculated_hash, signature_bytes)?;
                 Ok(signature)
             }
